@@ -64,32 +64,45 @@ func ruleEmptyCaptureNotScheduled(id string) func(p *Prog, r *Res) {
 			for o := range sentinel {
 				n++
 				guarded := false
-				ast.Inspect(f.Body(), func(x ast.Node) bool {
-					ifs, ok := x.(*ast.IfStmt)
-					if !ok {
-						return true
+				bodies := []ast.Node{f.Body()}
+				binfos := []*types.Info{info}
+				for _, c := range callsInDeep(f.Body()) {
+					if fn := p.Callee(f.Pkg, c); fn != nil {
+						if h := p.FnOfObj(fn); h != nil && h.Short == "builder" && h.Lit == nil && h.Body() != nil {
+							bodies = append(bodies, h.Body())
+							binfos = append(binfos, h.Pkg.TypesInfo)
+						}
 					}
-					ast.Inspect(ifs.Cond, func(y ast.Node) bool {
-						be, ok := y.(*ast.BinaryExpr)
+				}
+				for bi, body := range bodies {
+					info := binfos[bi]
+					ast.Inspect(body, func(x ast.Node) bool {
+						ifs, ok := x.(*ast.IfStmt)
 						if !ok {
 							return true
 						}
-						switch be.Op {
-						case token.EQL, token.NEQ, token.GTR, token.LSS, token.GEQ, token.LEQ:
-						default:
-							return true
-						}
-						for _, pair := range [][2]ast.Expr{{be.X, be.Y}, {be.Y, be.X}} {
-							if se, ok := ast.Unparen(pair[0]).(*ast.SelectorExpr); ok && se.Sel.Name == "PacketCount" {
-								if tv, ok := info.Types[pair[1]]; ok && tv.Value != nil {
-									guarded = true
+						ast.Inspect(ifs.Cond, func(y ast.Node) bool {
+							be, ok := y.(*ast.BinaryExpr)
+							if !ok {
+								return true
+							}
+							switch be.Op {
+							case token.EQL, token.NEQ, token.GTR, token.LSS, token.GEQ, token.LEQ:
+							default:
+								return true
+							}
+							for _, pair := range [][2]ast.Expr{{be.X, be.Y}, {be.Y, be.X}} {
+								if se, ok := ast.Unparen(pair[0]).(*ast.SelectorExpr); ok && se.Sel.Name == "PacketCount" {
+									if tv, ok := info.Types[pair[1]]; ok && tv.Value != nil {
+										guarded = true
+									}
 								}
 							}
-						}
+							return true
+						})
 						return true
 					})
-					return true
-				})
+				}
 				r.Check(guarded, rule, f.Key()+" uses the zero time of "+o.Name()+" as 'none'", p.Pos(fromMin[o]), "captures without packets are tested for", o.Name()+" is assigned a capture's PacketTimestampMin and tested with IsZero() for 'no capture', and nothing in the function tells captures without packets apart: such a capture has the zero time as minimum, is sorted in front of all others and ends the schedule — every new packet is processed before any old capture is loaded, the streams that continue are stored in the wrong order")
 			}
 		}
